@@ -21,9 +21,10 @@ EXPLANATION = (
     "which changes with the scale of the feature); R-viability-formula (adjacent rates are compared with isclose, "
     "not exactly: float means depend on the summation order of the rows); R-leader-is-max / R-value-truthiness "
     "(a boundary equal to 0.0 is a value like any other)."
+    " Also R-qualitative-map (raw value -> label in one simultaneous replacement: a chain of replacements depends on whether a category is spelled like a label) and, in R-aligned-pairs, the target and the feature meet in one groupby / crosstab call (row positions from `.indices` are not labels)."
 )
 NOT_DECIDED = "the invariance itself on data (numerical equality of partitions); ties between equal target rates of categories"
-FLOORS = {"R-nan-aware-lookup": 3, "R-order-only": 4, "R-order-statistic": 4, "R-label-injective": 1, "R-aligned-pairs": 4, "R-index-kept": 1, "R-row-order-free": 2, "R-adjacency-order": 3, "R-viability-formula": 1, "R-leader-is-max": 1, "R-value-truthiness": 1}
+FLOORS = {"R-nan-aware-lookup": 3, "R-order-only": 4, "R-order-statistic": 4, "R-label-injective": 1, "R-aligned-pairs": 4, "R-index-kept": 1, "R-row-order-free": 2, "R-adjacency-order": 3, "R-viability-formula": 1, "R-leader-is-max": 1, "R-value-truthiness": 1, "R-qualitative-map": 1}
 
 
 def check(ctx):
@@ -43,6 +44,7 @@ def check(ctx):
     from . import c13
 
     c13.rule_nan_aware(ctx)  # value identity is exact equality: a tolerance depends on the scale of the feature
+    c04.rule_qualitative_map(ctx)  # raw value -> label in one simultaneous replacement: a chain of replacements depends on whether a category is spelled like a label
 
 
 MUTANTS = [
